@@ -543,7 +543,7 @@ class Ops(object):
             return list(v)
         if isinstance(v, dict):
             return list(v.keys())
-        if isinstance(v, (range, str)) or type(v).__name__ in ('dict_keys', 'dict_values', 'dict_items'):
+        if isinstance(v, (range, str)) or type(v).__name__ in ('dict_keys', 'dict_values', 'dict_items', 'odict_keys', 'odict_values', 'odict_items'):
             return list(v)
         if isinstance(v, (set, frozenset)):
             if has_sym(v):
